@@ -98,6 +98,10 @@ func init() {
 	})
 	reg("math/big::NewInt", "the integer x (opaque)", func(e *Engine, st *State, fr *Frame, a []Val, fn *ssa.Function, c *ssa.CallCommon) ([]Val, []*State) {
 		e.C.DeclareFun("big_of", []Sort{BV(64)}, "Obj")
+		e.C.DeclareFun("obj_nil", []Sort{"Obj"}, SBool)
+		if !containsBound(a[0].(*Term).T) {
+			st.assume("(not (obj_nil (big_of " + a[0].(*Term).T + ")))")
+		}
 		return []Val{&PtrV{Opaque: mk("Obj", "(big_of "+a[0].(*Term).T+")")}}, nil
 	})
 	reg("math/big::(*Int).Bytes", "big-endian bytes of |x| (uninterpreted)", func(e *Engine, st *State, fr *Frame, a []Val, fn *ssa.Function, c *ssa.CallCommon) ([]Val, []*State) {
